@@ -249,7 +249,215 @@ weights = Contract(
     options={"samples": _w_samples, "finite_reals": True},
 )
 
-CONTRACTS = [enclosing, weights]
+
+def callee_of(contract, inst, fixed):
+    """the verified contract of one instance of `contract`, in the form used at call sites: the instance's concrete
+    parameters become call-site obligations, its requires are obligations, its ensures are assumed"""
+    from pyvc.api import CalleeContract
+    pick = lambda cl: [(c[0], c[1]) for c in cl if len(c) < 3 or inst in c[2]]
+
+    def same(k, v):
+        return lambda a: (getattr(a, k) is v) if (v is None or isinstance(v, bool)) else getattr(a, k) == v
+    reqs = pick(contract.requires) + [(f"instance[{inst}].{k}", same(k, v)) for k, v in fixed.items()]
+    return CalleeContract(contract.target, contract.options["result"], reqs, pick(contract.ensures), assumed=False,
+                          note=f"verified in this property as {contract.short}[{inst}]")
+
+
+weights.options["result"] = lambda mk, a: mk.array("weights", (2, mk.st.deref(a.x).shape[0]), "xreal")
+
+
+# ------------------------------------------------------------------ NdInterpolator.interpolate (one interpolated coordinate)
+ND = "interpolate/nd_interp.py::NdInterpolator."
+LAYOUTS = {"rank1": ("t",), "rank2,axis0": ("t", "p"), "rank2,axis1": ("p", "t")}
+NPASSIVE = 2     # length of the passive axis in the rank-2 instances (all values symbolic)
+
+
+def _find_nested(fn_node, name):
+    import ast
+    for n in ast.walk(fn_node):
+        if isinstance(n, ast.FunctionDef) and n.name == name and n is not fn_node:
+            return n
+    raise KeyError(name)
+
+
+def _p_nd(layout, nearest):
+    def p(mk):
+        n, m = mk.size("n"), mk.size("m")
+        dims = LAYOUTS[layout]
+        shape = tuple(n if d == "t" else NPASSIVE for d in dims)
+        return {"xp": mk.array("xp", (n,)), "x": mk.array("x", (m,)), "y": mk.array("y", shape, "xreal"),
+                "layout": layout, "nearest": nearest}
+    return p
+
+
+def _nd_call(interp, st, fv, args):
+    """builds the interpolator exactly as interpolate_dataset_along_axis does - the real `get_data` closure of
+    dataset.py over the data array, the real __init__ - and calls the real `interpolate`"""
+    from pyvc import source
+    from pyvc.values import FuncVal, CArr
+    from pyvc.interp import Env
+    dims = LAYOUTS[args["layout"]]
+    dsmod, outer, _ = source.locate("interpolate/dataset.py::interpolate_dataset_along_axis")
+    clos = Env({"dimensions": st.alloc(list(dims), "list"), "data_set": st.alloc({"v": args["y"]}, "dict"), "variable": "v"}, module=dsmod)
+    get_data = FuncVal(dsmod, _find_nested(outer, "get_data"), "get_data", closure=clos)
+    passive = st.alloc(CArr((NPASSIVE,), {(k,): Fraction(k) for k in range(NPASSIVE)}), "passive_coordinate")
+    coords = st.alloc([(d, args["xp"] if d == "t" else passive) for d in dims], "list")
+    shape = tuple(st.deref(args["y"]).shape)
+    cls = interp.module_attr(st, fv.module, "NdInterpolator")
+    obj = interp.instantiate(st, cls, [get_data, coords, shape, st.alloc(["t"], "list"), "t", st.alloc({"longitude": 360, "direction": 360}, "dict"),
+                                        None, None, args["nearest"]], {})
+    return interp.call_function(st, fv, [obj, st.alloc({"t": args["x"]}, "dict")], {})
+
+
+def _nd_native(kw, inst):
+    """the same through the public entry point: a real xarray Dataset and interpolate_dataset_along_axis"""
+    import numpy as np
+    import xarray
+    from ocean_science_utilities.interpolate.dataset import interpolate_dataset_along_axis
+    dims = LAYOUTS[kw["layout"]]
+    coords = {"t": np.asarray(kw["xp"], dtype=float)}
+    if "p" in dims:
+        coords["p"] = np.arange(NPASSIVE, dtype=float)
+    ds = xarray.Dataset({"v": (dims, np.asarray(kw["y"], dtype=float)), "untouched": (("q",), np.array([1.0, 2.0, 3.0]))}, coords=coords)
+    out = interpolate_dataset_along_axis(np.asarray(kw["x"], dtype=float), ds, coordinate_name="t", nearest_neighbour=bool(kw["nearest"]))
+    assert np.array_equal(out["untouched"].values, ds["untouched"].values), "variable without the coordinate must pass through"
+    assert list(out["v"].dims) == list(dims) and np.array_equal(out["v"].coords["t"].values, np.asarray(kw["x"], dtype=float))
+    return out["v"].values
+
+
+def _cell(arr, layout, i, q):
+    """data / result cell: position i on the interpolated axis, q on the passive one (ignored for rank 1)"""
+    if layout == "rank1":
+        return arr[i]
+    return arr[i, q] if layout == "rank2,axis0" else arr[q, i]
+
+
+def _slice_valid(y, layout, i):
+    """node validity at slice level: every passive entry of the node's slice is present (see NOTES-C13: F12)"""
+    if layout == "rank1":
+        return notnan(y[i])
+    return And(*[notnan(_cell(y, layout, i, q)) for q in range(NPASSIVE)])
+
+
+def renormalised(y0, y1, v0, v1, t):
+    """the property's rule for one target between two nodes with weights (1-t, t): a missing neighbour is dropped and the
+    weights renormalised when the valid weight exceeds one half, otherwise the result is missing.  -> (is_missing, value)"""
+    w0, w1 = 1 - t, t
+    wsum = If(v0, w0, 0) + If(v1, w1, 0)
+    vsum = If(v0, w0 * valof(y0), 0) + If(v1, w1 * valof(y1), 0)
+    ok = gt(wsum, Fraction(1, 2))
+    return Not(ok), vsum / If(ok, wsum, 1)
+
+
+def _passive_range(layout):
+    return range(NPASSIVE) if layout != "rank1" else range(1)
+
+
+def _nd_each(a, r, fn):
+    """fn(j, k, q) for every target j, every node k < n-1 and passive index q"""
+    n = ln(a.xp)
+    return forall(0, ln(a.x), lambda j: forall(0, n - 1, lambda k: And(*[fn(j, k, q) for q in _passive_range(a.layout)]), "k"), "j")
+
+
+def _nd_value(a, r):
+    def one(j, k, q):
+        t = frac_of(a.xp, a.x[j], k, k + 1)
+        res = _cell(r, a.layout, j, q)
+
+        def rule(tt):
+            miss, val = renormalised(_cell(a.y, a.layout, k, q), _cell(a.y, a.layout, k + 1, q),
+                                     _slice_valid(a.y, a.layout, k), _slice_valid(a.y, a.layout, k + 1), tt)
+            return And(iff(isnan(res), miss), implies(Not(miss), eq(valof(res), val, rtol=1e-9, atol=1e-9)))
+        if a.nearest:
+            # nearest node: all the weight on the closer neighbour; exactly half way either neighbour is a nearest one
+            half_way = eq(t, Fraction(1, 2), rtol=0, atol=0)
+            body = And(implies(lt(t, Fraction(1, 2)), rule(0)), implies(gt(t, Fraction(1, 2)), rule(1)),
+                       implies(half_way, Or(rule(0), rule(1))))
+        else:
+            body = rule(t)
+        return implies(brackets(a.xp, a.x[j], k, k + 1), body)
+    return _nd_each(a, r, one)
+
+
+def _nd_linear_when_both_present(a, r):
+    def one(j, k, q):
+        t = frac_of(a.xp, a.x[j], k, k + 1)
+        y0, y1 = _cell(a.y, a.layout, k, q), _cell(a.y, a.layout, k + 1, q)
+        res = _cell(r, a.layout, j, q)
+        return implies(And(brackets(a.xp, a.x[j], k, k + 1), _slice_valid(a.y, a.layout, k), _slice_valid(a.y, a.layout, k + 1)),
+                       And(notnan(res), eq(valof(res), valof(y0) * (1 - t) + valof(y1) * t, rtol=1e-9, atol=1e-9)))
+    return _nd_each(a, r, one)
+
+
+def _nd_convex(a, r):
+    def one(j, k, q):
+        y0, y1 = _cell(a.y, a.layout, k, q), _cell(a.y, a.layout, k + 1, q)
+        res = _cell(r, a.layout, j, q)
+        lo = If(valof(y0) <= valof(y1), valof(y0), valof(y1))
+        hi = If(valof(y0) <= valof(y1), valof(y1), valof(y0))
+        return implies(And(brackets(a.xp, a.x[j], k, k + 1), _slice_valid(a.y, a.layout, k), _slice_valid(a.y, a.layout, k + 1)),
+                       And(notnan(res), ge(valof(res), lo), le(valof(res), hi)))
+    return _nd_each(a, r, one)
+
+
+def _nd_nodes(a, r):
+    """a target on a node whose slice is present returns the data at that node (whatever the neighbours hold)"""
+    n = ln(a.xp)
+    return forall(0, ln(a.x), lambda j: forall(0, n, lambda k: And(*[
+        implies(And(a.x[j] == a.xp[k], _slice_valid(a.y, a.layout, k)),
+                eq(_cell(r, a.layout, j, q), _cell(a.y, a.layout, k, q))) for q in _passive_range(a.layout)]), "k"), "j")
+
+
+def _nd_outside(a, r):
+    return forall(0, ln(a.x), lambda j: implies(outside(a.xp, a.x[j]), And(*[isnan(_cell(r, a.layout, j, q)) for q in _passive_range(a.layout)])), "j")
+
+
+def _nd_shape(a, r):
+    if a.layout == "rank1":
+        return And(len(r.shape) == 1, r.shape[0] == ln(a.x))
+    want = (ln(a.x), NPASSIVE) if a.layout == "rank2,axis0" else (NPASSIVE, ln(a.x))
+    return And(len(r.shape) == 2, r.shape[0] == want[0], r.shape[1] == want[1])
+
+
+def _nd_samples(nearest):
+    def f(rng, tier):
+        import numpy as np
+        out = []
+        for _ in range(30 if tier == "quick" else 300):
+            lay = list(LAYOUTS)[int(rng.integers(0, 3))]
+            xp = _grid(rng, int(rng.integers(2, 41)), bool(rng.integers(0, 2)))
+            x = _targets(rng, xp, int(rng.integers(0, 10)))
+            shape = tuple(len(xp) if d == "t" else NPASSIVE for d in LAYOUTS[lay])
+            y = rng.normal(size=shape) * 10
+            y[rng.random(shape) < 0.15] = np.nan
+            out.append((lay, {"xp": xp, "x": x, "y": y, "layout": lay, "nearest": nearest}))
+        return out
+    return f
+
+
+def _nd_contract(nearest):
+    mode = "nearest" if nearest else "linear"
+    ens = [("shape", _nd_shape),
+           ("value_with_nan_renormalisation", _nd_value),
+           ("between_the_neighbouring_values", _nd_convex),
+           ("exact_at_nodes", _nd_nodes),
+           ("missing_outside_the_grid", _nd_outside)]
+    if not nearest:
+        ens.insert(2, ("linear_when_both_neighbours_present", _nd_linear_when_both_present))
+    w_inst = NEAR if nearest else LIN
+    return Contract(
+        ND + "interpolate", label=f"NdInterpolator.interpolate.{mode}",
+        instances=[(lay, _p_nd(lay, nearest)) for lay in LAYOUTS],
+        requires=GRID_REQ, ensures=ens, call=_nd_call,
+        callees={enclosing.target: callee_of(enclosing, "", {"period": None, "regular_xp": False}),
+                 weights.target: callee_of(weights, w_inst, {"period": None, "extrapolate_left": False, "extrapolate_right": False,
+                                                             "nearest_neighbour": nearest})},
+        options={"samples": _nd_samples(nearest), "finite_reals": True, "native_call": _nd_native})
+
+
+nd_linear, nd_nearest = _nd_contract(False), _nd_contract(True)
+
+CONTRACTS = [enclosing, weights, nd_linear, nd_nearest]
 TRUSTED = ["targets and grid nodes are finite (no NaN / inf coordinates)",
            "np.searchsorted on a sorted array returns the number of cells < v (left) / <= v (right); sortedness is an obligation"]
 EXPLANATION = ""
